@@ -152,12 +152,23 @@ def instrumented():
 
 
 def peek_ctx():
-    """next value of the process-wide `context_uniqifier` (without consuming it)"""
-    c = _U().UniqueNumericIdGenerator.context_uniqifier
+    """next value of the process-wide `context_uniqifier` (without consuming it); None when the
+    code no longer has that single counter (the model comparison is then bound to disagree, the
+    direct oracle goes on regardless)"""
+    c = getattr(_U().UniqueNumericIdGenerator, "context_uniqifier", None)
     m = re.fullmatch(r"count\((\d+)\)", repr(c))
-    if not m:
-        raise RuntimeError(f"context_uniqifier is not a plain itertools.count: {c!r}")
-    return int(m.group(1))
+    return int(m.group(1)) if m else None
+
+
+def probe_ctx():
+    """a context number that is at least the next one (consumes one when peeking is impossible)"""
+    n = peek_ctx()
+    if n is not None:
+        return n
+    try:
+        return _U().UniqueNumericIdGenerator(pid=1, parts="context,index").unique_identifer + 1
+    except Exception:  # noqa
+        return 10
 
 
 def pid_parts(pid):
@@ -353,7 +364,7 @@ def model_proc_req(case, first):
             ops.append(["alpha", op[1], pp, op[3], op[4], bool(op[5])])
         else:
             ops.append(["draw", op[1]])
-    return {"m": "c13.proc", "first_ctx": first, "ops": ops}
+    return {"m": "c13.proc", "first_ctx": 1 if first is None else first, "ops": ops}
 
 
 def canon_model_outs(outs):
@@ -565,7 +576,7 @@ def check_cases(cases, rep, seen, defaults):
             meta.append((case, code))
         elif kind in ("proc", "ctxpos"):
             if kind == "ctxpos":
-                n = peek_ctx() + 2
+                n = probe_ctx() + 2
                 case = dict(case, kind="proc", ops=[["num", "context,index", None, True], ["num", "index,context", None, True],
                                                     ["draw", 0, n], ["draw", 1, n]])
             first, outs = real_proc(case, rep, seen)
@@ -625,7 +636,7 @@ def check_cases(cases, rep, seen, defaults):
                         if gm["kind"] == "alpha":
                             check_alpha_shape(rep, case, v if isinstance(v, str) else str(v), gm["alphabet"],
                                               gm["min_chars"], f"AlphaCodeGenerator({gm['template']!r})")
-            reqs.append({"m": "c13.proc", "first_ctx": first, "ops": ops})
+            reqs.append({"m": "c13.proc", "first_ctx": 1 if first is None else first, "ops": ops})
             meta.append((case, (r, values)))
         else:
             raise ValueError(f"unknown case kind {kind}")
@@ -732,7 +743,8 @@ BAD_ALPHABETS = ["A", "AB-", "-"]
 def gen_template(rng):
     r = rng.random()
     if r < 0.55:
-        return rng.choice(TEMPLATE_POOL)
+        t = rng.choice(TEMPLATE_POOL)
+        return respell(t, rng) if rng.random() < 0.3 else t
     if r < 0.62:
         return rng.choice(NOINDEX_POOL)
     if r < 0.67:
@@ -744,6 +756,67 @@ def gen_template(rng):
         parts.insert(rng.randint(0, len(parts)), "index")
     sep = rng.choice([",", ",", ", ", " ,"])
     return sep.join(parts)
+
+
+def respell(template, rng, fresh=False):
+    """Another spelling of the same template: whitespace around the commas and at both ends, mixed
+    case (`_convert` receives `part.strip().lower()`, so the id layout is the same). With `fresh`
+    the amount of whitespace is drawn from a large range, so that the exact string has almost
+    surely not been used before in this process."""
+    hi = 9 if fresh else 2
+    out = []
+    for part in template.split(","):
+        part = part.strip()
+        part = "".join(ch.upper() if rng.random() < 0.4 else ch.lower() for ch in part)
+        ws = lambda: "".join(rng.choice("  \t" if fresh else " ") for _ in range(rng.randint(0, hi)))  # noqa
+        out.append(ws() + part + ws())
+    return ",".join(out)
+
+
+CONTEXT_TEMPLATES = ["context,index", "pid,context,index", "context,index", "pid,context,index", "5,context,index",
+                     "context,pid,index", "index,context"]
+
+
+def gen_spelling_case(rng):
+    """Several generators whose templates are spelling variants of one template containing
+    `context` (incl. the canonical spelling the defaults use): same id layout, so only the
+    process-wide counter keeps them apart."""
+    base = rng.choice(CONTEXT_TEMPLATES)
+    spellings = [base] + [respell(base, rng, fresh=True) for _ in range(rng.randint(1, 3))]
+    if rng.random() < 0.5:
+        spellings.append(respell(base, rng))
+    rng.shuffle(spellings)
+    alpha = rng.random() < 0.4
+    al, mc, rz = rng.choice([None, "ACGT", "0123456789ABCDEF"]), rng.choice([4, 8, 12]), rng.random() < 0.6
+    ops = []
+    for t in spellings:
+        ops.append(["alpha", t, None, al, mc, rz] if alpha else ["num", t, None, True])
+    for h in range(len(spellings)):
+        ops.append(["draw", h, rng.randint(1, 6)])
+    return {"kind": "proc", "pid": rng.choice([None, 3, 111, 3333333333333333]), "ops": ops}
+
+
+def gen_spelling_recipe(rng):
+    """The builtins / plugin defaults of a mode next to `var` generators whose template is the
+    mode's default written with other spacing and case."""
+    big = rng.random() < 0.5
+    base = "pid,context,index" if big else "context,index"
+    gens = []
+    for _ in range(rng.randint(1, 3)):
+        t = respell(base, rng, fresh=rng.random() < 0.8).replace("\t", " ")
+        if rng.random() < 0.6:
+            gens.append({"type": "num", "template": t})
+        else:
+            # in big-id mode this is also the default template of unique_alpha_code
+            gens.append({"type": "alpha", "template": t if big else respell("context,index", rng, fresh=True).replace("\t", " ")})
+    if rng.random() < 0.5:
+        gens.append({"type": "num", "template": None})
+    fields = [["g", i] for i in range(len(gens))] + [["builtin_id"], ["plugin_id"]]
+    if big or rng.random() < 0.3:
+        fields.append(["builtin_alpha"])
+    rng.shuffle(fields)
+    return {"kind": "recipe", "pid": rng.choice([None, 3, 111, 3333333333333333]), "big_ids": big,
+            "version": rng.choice([2, 3]), "gens": gens, "fields": fields, "count": rng.randint(1, 4), "reps": rng.randint(1, 2)}
 
 
 def gen_pid(rng):
@@ -901,6 +974,8 @@ def run(ctx, rep, findings):
         "tuple codings (1-6 components, biased to 0 / 7 / 8 / 9 / 63 / 64 and huge values); scramble_number on numbers of "
         "1..1010 bits around powers of two with minbits 0..2000 (both asserts reachable); mask_for_key on > 128 distinct "
         "(key, numbits) pairs in two orders; alphabet codes over 14 alphabets (size 2..62, non-ASCII) x min_chars 0..100; "
+        "spelling variants of one context-bearing template (extra blanks/tabs around commas, mixed case) mixed with the "
+        "canonical/default spelling in one process, at function level and in recipes of both modes; "
         "function-level processes (1-7 generators, numeric / alphabetic, templates over pid/context/index/literals incl. "
         "malformed ones, pid None / small / 25 digits, <= 200 draws each, thorough: <= 20000) and recipes (plugin UniqueId, "
         "vars re-created per iteration, builtins unique_id / unique_alpha_code, small-id and big-id mode, pid option or "
@@ -930,6 +1005,8 @@ def run(ctx, rep, findings):
     procs = [gen_proc_case(rng) for _ in range(ctx.scale(400, 2500))]
     recipes = [gen_recipe_case(rng) for _ in range(ctx.scale(350, 2500))]
     big = [gen_proc_case(rng, big=True) for _ in range(ctx.scale(4, 40))]
+    procs += [gen_spelling_case(rng) for _ in range(ctx.scale(80, 600))]
+    recipes += [gen_spelling_recipe(rng) for _ in range(ctx.scale(60, 500))]
     mixed = procs + recipes
     rng.shuffle(mixed)
     cases += mixed + big
